@@ -88,12 +88,14 @@ struct Opts {
     log: LogOptions,
     sink_file: bool,
     rd_file: bool,
+    flush_each: bool,
 }
 
 fn parse_opts(s: &str) -> Opts {
     let mut args: Vec<String> = vec![];
     let mut sink_file = false;
     let mut rd_file = false;
+    let mut flush_each = false;
     for kv in s.split_whitespace() {
         let (k, v) = kv.split_once('=').expect("k=v");
         match k {
@@ -111,6 +113,7 @@ fn parse_opts(s: &str) -> Opts {
             }
             "sink" => sink_file = v == "file",
             "rd" => rd_file = v == "file",
+            "flush" => flush_each = v == "1",
             _ => {}
         }
     }
@@ -120,11 +123,16 @@ fn parse_opts(s: &str) -> Opts {
         log,
         sink_file,
         rd_file,
+        flush_each,
     }
 }
 
 fn scratch() -> std::path::PathBuf {
-    let d = std::path::PathBuf::from(format!("/dev/shm/c12-hx-{}", std::process::id()));
+    // env C12_SCRATCH: a directory chosen by the caller (so that strace -P can name the log file)
+    let d = match std::env::var("C12_SCRATCH") {
+        Ok(d) => std::path::PathBuf::from(d),
+        Err(_) => std::path::PathBuf::from(format!("/dev/shm/c12-hx-{}", std::process::id())),
+    };
     std::fs::create_dir_all(&d).unwrap();
     d
 }
@@ -252,7 +260,11 @@ fn run_case(line: &str) -> String {
                 }
                 let r = catch_unwind(AssertUnwindSafe(|| match &mut b {
                     B::V(l) => (l.append(wb), l.approximate_size()),
-                    B::F(l) => (l.append(wb), l.approximate_size()),
+                    B::F(l) => {
+                        // flush=1: an append counts as Ok only if its bytes were handed to the file
+                        let r = l.append(wb).and_then(|_| if opts.flush_each { l.flush() } else { Ok(()) });
+                        (r, l.approximate_size())
+                    }
                 }));
                 match r {
                     Ok((Ok(()), bw)) => {
@@ -271,7 +283,10 @@ fn run_case(line: &str) -> String {
                     l.seal().expect("seal");
                 }
                 B::F(l) => {
-                    l.seal().expect("seal");
+                    // with an injected write error the seal fails too: that is an output
+                    if let Err(e) = l.seal() {
+                        strs.push(format!("seal=err:{}", code(&e)));
+                    }
                 }
             }
         }
@@ -413,6 +428,34 @@ fn run_conc(line: &str) -> String {
     )
 }
 
+/// `exists`: a log builder must refuse a path that already exists (the model's builder starts on an
+/// empty file) and must leave the existing file byte for byte as it was.
+fn run_exists() -> String {
+    let path = scratch().join("exists.log");
+    let _ = std::fs::remove_file(&path);
+    let mut lb = LogBuilder::new(LogOptions::default(), &path).expect("create");
+    let mut wb = WriteBatch::default();
+    wb.put(b"key", 1, &[7u8; 100]).unwrap();
+    lb.append(&wb).unwrap();
+    lb.seal().unwrap();
+    let before = std::fs::read(&path).unwrap();
+    let how = |r: Result<(), sst::SError>| match r {
+        Ok(()) => "OPENED".to_string(),
+        Err(e) => format!("err:{}", code(&e)),
+    };
+    let seq = how(LogBuilder::new(LogOptions::default(), &path).map(|mut l| {
+        let _ = l.append(&wb);
+        let _ = l.seal();
+    }));
+    let conc = how(ConcurrentLogBuilder::new(LogOptions::default(), &path).map(|l| {
+        let _ = l.append(wb.clone());
+        let _ = l.seal();
+    }));
+    let after = std::fs::read(&path).unwrap_or_default();
+    let _ = std::fs::remove_file(&path);
+    format!("exists seq={seq} conc={conc} same={} len={}", before == after, before.len())
+}
+
 fn main() {
     hx::quiet_panics();
     use std::io::{BufRead, Write};
@@ -426,7 +469,13 @@ fn main() {
             continue;
         }
         let r = catch_unwind(AssertUnwindSafe(|| {
-            if line.starts_with("conc ") { run_conc(&line) } else { run_case(&line) }
+            if line.starts_with("conc ") {
+                run_conc(&line)
+            } else if line.starts_with("exists") {
+                run_exists()
+            } else {
+                run_case(&line)
+            }
         }));
         match r {
             Ok(s) => writeln!(w, "{}", s).unwrap(),
